@@ -44,8 +44,7 @@ ASSUMPTIONS = [
     'finding hidden-entries-skipped)',
     "don't-care: whether empty or filtered-out directories become sub-maps; "
     'which of two files of one rule that collide after trimming ends up '
-    'visible (the other must be beneath when nesting); key "." for a rule on '
-    'the root directory',
+    'visible (the other must be beneath when nesting)',
 ]
 
 DIRS = ['a', 'b', 'img', 'snd.d', 'x.y']
@@ -164,8 +163,11 @@ def expected_population(root, rules, trim):
             return 'ValueError', per_rule, dir_keys
         rel = os.path.normpath(os.path.relpath(full, root))
         parts = rel.split(os.sep)
-        for i in range(1, len(parts) + 1):
-            dir_keys.add('/'.join(parts[:i]))
+        if rel != os.curdir:
+            # (a rule on the root itself: the root is the map that is being
+            # populated, it has no key of its own)
+            for i in range(1, len(parts) + 1):
+                dir_keys.add('/'.join(parts[:i]))
         produced = collections.defaultdict(list)
         for dirpath, dirnames, filenames in os.walk(full):
             for d in dirnames:
@@ -371,6 +373,15 @@ def _run(case, desper, res, tmp):
                     fail(at, 'older-still-visible', f'without nesting the '
                          f'older handle at {key!r} must be replaced',
                          'the new handle', list(got.rec))
+                    return
+                elif older and parent is not None and any(
+                        layer.get(name) is older[0]
+                        for layer in parent.handles.maps):
+                    # (it may have been visible through a deeper layer)
+                    fail(at, 'older-kept-beneath', f'without nesting the '
+                         f'new handle at {key!r} replaces the older one, '
+                         'which must not stay retrievable beneath it',
+                         'not stored any more', list(older[0].rec), key=key)
                     return
         # ---- R3: nothing that corresponds to no file/directory
         def walk(m, names):
